@@ -108,7 +108,7 @@ class C13(F.Check):
     ]
 
     def bounds(self):
-        return {"stored values": "all bit patterns of every operand (no bound)", "reps": F.ALL_REPS,
+        return {"stored values": "all bit patterns of every operand (no bound)", "reps": F.ALL_REPS + F.TWIN_INT_REPS,
                 "units": [u for _, u in self.units()], "mixed scalar pairs": self.mixed(), "unwind": 0,
                 "inline_depth": 0}
 
@@ -157,13 +157,15 @@ class C13(F.Check):
             if expect:
                 self.expected_drop[au] = expect
 
-        for ct in F.ALL_REPS:
+        for ct in F.ALL_REPS + F.TWIN_INT_REPS:
             P = F.promoted(ct)
             isint = not F.ct_is_float(ct)
             sub = ct in SUBINT
             xy = [(ct, "x"), (ct, "y")]
             x1 = [(ct, "x")]
             for ui, (ut, _) in enumerate(self.units()):
+                if ct in F.TWIN_INT_REPS and ui > 0:      # long long / unsigned long long: distinct types, same arithmetic as int64_t / uint64_t - one unit
+                    continue
                 U = "C13_" + ut
                 Q = "Quantity<%s, %s>" % (U, ct)
                 PT = "QuantityPoint<%s, %s>" % (U, ct)
